@@ -63,6 +63,7 @@ FUNCTIONS = [
     ("json_object.c", "json_object_get_boolean"),
     ("json_object.c", "json_object_get_string_len"),
     ("json_object.c", "_json_object_get_string_len"),
+    ("arraylist.c", "array_list_get_idx"),
 ]
 
 
